@@ -514,6 +514,12 @@ def monitor_c16(script):
                 cancelled = True
             if o.get("closed") == "1":
                 ended = True   # an in-progress cancel ends the connection
+        elif verb == "closecancel":
+            if o.get("started") == "hung":
+                hit("cancel-blocks-on-stopping-node",
+                    "CancelBlockRequest did not return (300 ms) while the node's run() was calling the request's on-stop function: "
+                    "on-stop is called with the node mutex held. A downloader's Cancel holds its state lock while it calls "
+                    "CancelBlockRequest and its Stop (the on-stop function) takes that lock: the two wait for each other for ever")
         elif verb in ("msg", "ext") and a.get("cmd") == "block" and out is not None and not any(k in a for k in ("len", "cut", "nob", "hlen", "ck", "magic")):
             p = _payload(a)
             if p[:80].hex() == out:
